@@ -406,6 +406,82 @@ def library_law(ctx, fmts):
     ctx.bump("library_law_samples", n)
 
 
+def run_templates(ctx, fmts):
+    """format-specific shapes: Self-typed nodes carrying the format's native types (every nesting
+    level must be treated like the top), and user default_dialects that re-define a native type"""
+    import importlib
+    import sys
+    import types
+    import typing
+
+    from mashumaro.codecs.basic import BasicDecoder, BasicEncoder
+    from mashumaro.dialect import Dialect
+    from typing_extensions import Self
+
+    m = types.ModuleType("c04_templates")
+    sys.modules[m.__name__] = m
+    try:
+        for fname, F in fmts.items():
+            modname, cname, to_m, from_m = F["mixin"]
+            Mixin = getattr(importlib.import_module(modname), cname)
+            ann = {"name": str, "payload": bytes, "when": datetime.datetime, "day": datetime.date, "weight": typing.Optional[int], "child": typing.Optional[Self], "kids": typing.List[Self]}
+            ns = {"__annotations__": ann, "weight": None, "child": None, "kids": dataclasses.field(default_factory=list), "__module__": m.__name__}
+            C = type(f"Node_{fname}", (Mixin,), ns)
+            C.__module__ = m.__name__
+            setattr(m, C.__name__, C)
+            C = dataclasses.dataclass(C, kw_only=True)
+
+            def node(i, depth):
+                kw = dict(name=f"n{i}", payload=bytes([i, 255 - i]), when=datetime.datetime(2024, 2, 29, 1, 2, i % 60), day=datetime.date(2024, 1, 1 + i % 28))
+                if depth > 0:
+                    kw["child"] = node(i + 1, depth - 1)
+                    kw["kids"] = [node(i + 2, 0)] if fname != "toml" or True else []
+                    kw["weight"] = i
+                return C(**kw)
+
+            for depth in (0, 1, 2):
+                obj = node(depth, depth)
+                case = {"template": f"Self-typed node with native leaves, depth {depth}", "format": fname}
+                ctx.count(case, True, kind=f"template:{fname}")
+                try:
+                    doc = getattr(obj, to_m)()
+                    got = render_natives(F["parse"](doc))
+                    ref = BasicEncoder(C, default_dialect=omit_none_dialect()).encode(obj) if fname == "toml" else BasicEncoder(C).encode(obj)
+                    want = render_natives(F["parse"](F["ser"](ref)))
+                    back = getattr(C, from_m)(doc)
+                except Exception as e:  # noqa
+                    ctx.violation(case, {"error": f"{type(e).__name__}: {e}"[:300]}, "format mixin encodes / decodes a Self-typed class", "format mixin failed on a Self-typed class", lambda f: False)
+                    continue
+                if not deep_eq(got, want):
+                    ctx.violation(case, {"parsed_document": repr(got)[:500]}, {"format_encoding_of_basic_form": repr(want)[:500]}, "nested Self instance is not encoded like the top-level one", lambda f: False)
+                if back != obj:
+                    ctx.violation(case, {"decoded": repr(back)[:500]}, {"original": repr(obj)[:500]}, "decode(encode(v)) != v for a Self-typed class", lambda f: False)
+            # a user default_dialect that re-defines one of the format's native types: the user's wins, in both directions
+            class Hex(Dialect):
+                serialization_strategy = {
+                    bytes: {"serialize": lambda b: "hex:" + bytes(b).hex(), "deserialize": lambda s: bytes.fromhex(s[4:])},
+                    datetime.date: {"serialize": lambda d: "day:" + d.isoformat(), "deserialize": lambda s: datetime.date.fromisoformat(s[4:])},
+                }
+
+            for shape, val in ((typing.Dict[str, typing.List[bytes]], {"k": [b"\x00\xff", b""]}), (typing.Dict[str, datetime.date], {"d": datetime.date(2024, 2, 29)})):
+                case = {"template": f"user default_dialect over a native type: {shape}", "format": fname}
+                ctx.count(case, True, kind=f"template:{fname}")
+                try:
+                    doc = F["Enc"](shape, default_dialect=Hex).encode(val)
+                    got = F["parse"](doc)
+                    want = F["parse"](F["ser"](BasicEncoder(shape, default_dialect=Hex).encode(val)))
+                    back = F["Dec"](shape, default_dialect=Hex).decode(doc)
+                except Exception as e:  # noqa
+                    ctx.violation(case, {"error": f"{type(e).__name__}: {e}"[:300]}, "a codec with a user default_dialect encodes and decodes", "codec with default_dialect failed", lambda f: False)
+                    continue
+                if not deep_eq(got, want):
+                    ctx.violation(case, {"parsed_document": repr(got)[:300]}, {"basic_codec_with_the_same_dialect": repr(want)[:300]}, "the user's strategy for a native type is not honoured by the format encoder", lambda f: False)
+                if back != val:
+                    ctx.violation(case, {"decoded": repr(back)[:300]}, {"original": repr(val)[:300]}, "decode(encode(v)) != v under a user default_dialect", lambda f: False)
+    finally:
+        sys.modules.pop(m.__name__, None)
+
+
 def gen_cases(ctx, n, depth):
     cases = []
     from .c01 import fix_aliases
@@ -428,6 +504,7 @@ def run(ctx):
     fmts = formats()
     ctx.extra["formats"] = sorted(fmts)
     library_law(ctx, fmts)
+    run_templates(ctx, fmts)
     n, depth = (700, 3) if ctx.tier == "quick" else (12000, 4)
     done = 0
     while done < n and ctx.time_left() > 40:
@@ -447,4 +524,6 @@ def replay(ctx, body):
         run_cases(ctx, [(c["ty"], c["value"])], {c["format"]: fmts[c["format"]]} if c.get("format") in fmts else fmts)
     elif c and "library_law" in c:
         library_law(ctx, fmts)
+    elif c and "template" in c:
+        run_templates(ctx, fmts)
     return ctx.finish()
